@@ -145,6 +145,13 @@ pub fn run(part: &mut Part) {
                 .collect();
             part.extra.insert("hash_seed_orders".into(), json!(seeds_hash));
             run_seq(part, profiles, mons);
+            // the log begins with the continuation frames of an entry whose head was deleted
+            let salpha = vec![Op::app(QA, Pos::Auto, Sz::EmbTail), Op::app(QA, Pos::Auto, Sz::L), Op::app(QB, Pos::Auto, Sz::S3), Op::Trunc { q: QA, at: Tr::Last }, Op::Trunc { q: QA, at: Tr::First }, Op::Delete(QA), Op::Reopen];
+            let sprofiles = vec![prof("straddle seeds x (entry-shaped tail payload, truncates, restart)", straddle_seeds(), salpha, if TINY { if q { 3 } else { 4 } } else { 3 })];
+            let smon = Monitors { property: "C01", conformance: true, reopen_state: true, final_reopen: true, final_appends: true, ..Default::default() };
+            let b00 = part.bounds.clone();
+            run_seq(part, sprofiles, vec![smon]);
+            part.bounds = json!({"main": b00, "straddle": part.bounds.clone()});
             // queue names longer than a block (real geometry: the maximum, 65535 bytes)
             let long = if TINY { "N".repeat(BLOCK + 6) } else { "N".repeat(65535) };
             let names = vec![long, "b".to_string(), "zz".to_string(), "f".to_string()];
@@ -204,8 +211,12 @@ pub fn run(part: &mut Part) {
             } else {
                 vec![prof("multi-file seeds x A_roll", seeds, a_roll(), if q { 2 } else { 3 })]
             };
-            let mon = Monitors { property: "C06", c06: true, ..Default::default() };
-            run_seq(part, profiles, vec![mon]);
+            let mons = vec![
+                Monitors { property: "C06", c06: true, ..Default::default() },
+                Monitors { property: "C06", c06: true, policy: Some(PolicyCfg::DoNothing), ..Default::default() },
+                Monitors { property: "C06", c06: true, policy: Some(PolicyCfg::DelayAltFlush), ..Default::default() },
+            ];
+            run_seq(part, profiles, mons);
             part.rule = "every op sequence of the stated depth after multi-file seeds; after every truncate / delete_queue / open the real directory listing is compared with the harness's own attribution (file that received the first byte each retained record's append call wrote, from frame events) ; distinct_nontrivial = distinct (file list, oldest attributed file, file at call begin, call kind)".into();
             part.require_outcomes(&["c06_checks", "c06_calls_deleting_files"]);
         }
@@ -214,11 +225,13 @@ pub fn run(part: &mut Part) {
                 vec![
                     prof("empty x A_full", vec![seed_empty()], a_full(), if q { 3 } else { 4 }),
                     prof("structural seeds x A_full", structural_seeds(), a_full(), if q { 3 } else { 4 }),
+                    prof("cursor at block/file end x A_full", cursor_seeds(&[0, 3], &[0, 6, 7, 19]), a_full(), if q { 2 } else { 3 }),
                 ]
             } else {
                 let mut s = vec![seed_empty()];
                 s.extend(structural_seeds());
-                vec![prof("empty+structural x A_full", s, a_full(), if q { 1 } else { 2 })]
+                s.extend(cursor_seeds(&[3], &[0, 7]));
+                vec![prof("empty+structural+file-end x A_full", s, a_full(), if q { 1 } else { 2 })]
             };
             let mons = vec![
                 Monitors { property: "C13", c13: true, policy: Some(PolicyCfg::Default), ..Default::default() },
@@ -413,9 +426,20 @@ pub fn run(part: &mut Part) {
             let descr: Vec<_> = profiles.iter().map(|p| p.describe()).collect();
             let stats = explore(&profiles, part.seed, |env, leaf| c18_leaf(env, leaf));
             part.stats.merge(stats);
-            part.bounds = json!({"profiles": descr});
+            // crash variant: every crash point inside the last call of the history, when that call
+            // is addressed to the other queue
+            let mut cseeds = vec![seed_ab(), seed_two_files(), seed_interleaved()];
+            cseeds.extend(cursor_seeds(&[3], &[0, 8, 34]));
+            let mut calpha = a_write();
+            calpha.push(Op::app(QA, Pos::Auto, Sz::XL));
+            calpha.push(Op::app(QB, Pos::Auto, Sz::XL));
+            let cprofiles = vec![prof("seeds x (A_write + XL), crash inside the last call", cseeds, calpha, if TINY { if q { 2 } else { 3 } } else { 1 })];
+            let cdescr: Vec<_> = cprofiles.iter().map(|p| p.describe()).collect();
+            let stats = explore(&cprofiles, part.seed, |env, leaf| crate::crash::c18_crash_leaf(env, leaf));
+            part.stats.merge(stats);
+            part.bounds = json!({"profiles": descr, "crash_profiles": cdescr});
             part.stats.sample(|| json!("every sequence of bounds.profiles, and for each of the queues a and b its projection, was executed"));
-            part.rule = "for every history H of the bound and q in {a,b}: H and H restricted to the calls addressed to q (restarts kept) are executed on the real code; q's return values and observable content must agree after every call of q, and after recovering a copy of the live directory taken at the end (op-boundary crash); no reference model is involved in the verdict".into();
+            part.rule = "for every history H of the bound and q in {a,b}: H and H restricted to the calls addressed to q (restarts kept) are executed on the real code; q's return values and observable content must agree after every call of q, and after recovering a copy of the live directory taken at the end (op-boundary crash); no reference model is involved in the verdict. Crash variant: for every history whose last call is addressed to the other queue, every crash point inside that call (every fs-effect prefix, every byte of every write): q's content right after recovery and through [append to q, restart] x 2 must equal what the projected history gives when crashed at the same op boundary".into();
             part.require_outcomes(&["projections_compared"]);
         }
         "C11" => {
@@ -645,6 +669,7 @@ pub fn replay(path: &str) -> i32 {
         "fault" => crate::fault::fault_leaf(&mut env, &leaf, case["damaged_block"].as_bool().unwrap_or(false)),
         "c14" => c14_leaf(&mut env, &leaf),
         "c18" => c18_leaf(&mut env, &leaf),
+        "c18-crash" => crate::crash::c18_crash_leaf(&mut env, &leaf),
         "c17" => c17_leaf(&mut env, &leaf, if case["variant"] == "numbering-gaps" { 1 } else { 0 }),
         "frame" => {
             let g = |k: &str| case[k].as_u64().map(|v| v as usize);
